@@ -4,6 +4,7 @@ import (
 	"fmt"
 	"go/token"
 	"go/types"
+	"os"
 	"sort"
 	"strings"
 
@@ -585,6 +586,9 @@ func (fc *FnCtx) closeLoop(li *loopInfo, st *State) {
 			continue
 		}
 		if (!ok || hv != v) && !li.modKeys[k] {
+			if os.Getenv("GOVC_DEBUG") != "" {
+				fmt.Fprintf(os.Stderr, "modset %s L%d += %s (head %s, now %s)\n", fc.fnName(), li.ordinal, k, fc.tb.Show(hv)[:min(80, len(fc.tb.Show(hv)))], fc.tb.Show(v)[:min(80, len(fc.tb.Show(v)))])
+			}
 			li.modKeys[k] = true
 			fc.changed = true
 		}
